@@ -45,7 +45,9 @@ func VerifC10_History() {
 	strict := verifrt.Choose(2) == 1
 	fetch := config.CRLFetchMode(verifrt.Choose(2))
 	sig := config.SignatureValidationMode(verifrt.Choose(3))
-	c := newChecker(verifrt.Param("disk", 0) == 1, fetch, strict, sig)
+	disk := verifrt.Param("disk", 0) == 1
+	c := newChecker(disk, fetch, strict, sig)
+	verifrt.InstallDirListing()
 	shape := verifrt.Choose(4)
 	var cdp []string
 	switch shape {
@@ -78,7 +80,11 @@ func VerifC10_History() {
 		}
 		crlrepository.VerifSetServer(urlA, up, body)
 		crlrepository.VerifSetServer(urlB, up, body)
-		kind := verifrt.Choose(3)
+		nkinds := 3
+		if disk {
+			nkinds = 4 // with disk storage the process may also restart between events
+		}
+		kind := verifrt.Choose(nkinds)
 		before := crlrepository.VerifLoadCalls()
 		switch kind {
 		case 0: // handshake with an unlisted certificate
@@ -110,6 +116,10 @@ func VerifC10_History() {
 			if crlrepository.VerifLoadCalls() > before && shape != 1 && acceptable(up, body, sig) {
 				everAcceptable = true
 			}
+		case 3: // restart: handles and pending goroutines are gone, the work_dir stays; Provision's start-up steps run
+			verifrt.Reboot()
+			c.crlRepository = crlrepository.VerifNewRepo(true, c.crlConfig)
+			c.crlRepository.DeleteTempFilesIfExist()
 		}
 	}
 	verifrt.DropSpawned()
